@@ -551,9 +551,15 @@ def fam_actderiv(item, res, viol, calls):
     Cn, S = tp.conditions, tp.samplers
     acts = [("tanh", lambda: torch.nn.Tanh()), ("ReLUn(3)", lambda: ReLUn(3)), ("ReLUn(2)", lambda: ReLUn(2)), ("Sinus", lambda: Sinus()),
             ("Adaptive(tanh)", lambda: AdaptiveActivationFunction(torch.nn.Tanh(), inital_a=0.8, scaling=1.3))]
+    # one model with DIFFERENT activations per layer (anything an activation keeps outside the call shows only here)
+    mixed = [("[ReLUn(2),ReLUn(3)]", lambda: [ReLUn(2), ReLUn(3)]), ("[ReLUn(3),ReLUn(2)]", lambda: [ReLUn(3), ReLUn(2)]),
+             ("[ReLUn(3),tanh]", lambda: [ReLUn(3), torch.nn.Tanh()]), ("[Sinus,ReLUn(2)]", lambda: [Sinus(), ReLUn(2)]),
+             ("[Adaptive(tanh),ReLUn(3)]", lambda: [AdaptiveActivationFunction(torch.nn.Tanh(), inital_a=0.8, scaling=1.3), ReLUn(3)])]
     X1 = Space({"x": 1})
-    for aname, mk in acts:
+    for aname, mk in acts + mixed:
         for hidden in ((4,), (3, 3)):
+            if aname.startswith("[") and len(hidden) != 2:
+                continue
             cfg = "actderiv|%s|hidden=%s" % (aname, hidden)
             res["states"].append(cfg)
             torch.manual_seed(17)
@@ -592,9 +598,9 @@ def fam_actderiv(item, res, viol, calls):
             sc1 = max(1.0, float(fd1.abs().max()))
             sc2 = max(1.0, float(fd2.abs().max()))
             if e1 > 1e-5 * sc1:
-                viol("C04|derivative-mismatch|first|%s" % aname.split("(")[0], "%s: grad(u, x) inside the residual differs from the finite-difference derivative of the model by %.3g" % (cfg, e1))
+                viol("C04|derivative-mismatch|first|%s" % aname.strip("[").split("(")[0], "%s: grad(u, x) inside the residual differs from the finite-difference derivative of the model by %.3g" % (cfg, e1))
             elif e2 > 2e-4 * sc2:
-                viol("C04|derivative-mismatch|second|%s" % aname.split("(")[0], "%s: laplacian(u, x) inside the residual differs from the second finite difference of the model by %.3g (values up to %.3g)" % (cfg, e2, sc2))
+                viol("C04|derivative-mismatch|second|%s" % aname.strip("[").split("(")[0], "%s: laplacian(u, x) inside the residual differs from the second finite difference of the model by %.3g (values up to %.3g)" % (cfg, e2, sc2))
             else:
                 exp = float(torch.mean((f(xs) + 0.5 * fd1 - 0.1 * fd2) ** 2))
                 if abs(loss - exp) > 1e-4 * max(1.0, abs(exp)):
